@@ -241,7 +241,7 @@ def run(tier, seed):
         'sub-line (bytecode-level) preemption outside',
     ]
     discharged = sum(1 for q in queries if q['verdict'] == 'unsat' or (q.get('inductive') or {}).get('proved'))
-    cov = {'obligations': len(scns) + 1, 'discharged': discharged + sum(1 for q in qs if q.kind == 'main' and q.result['status'] == 'confirmed'),
+    cov = {'obligations': len(scns) + sum(1 for q in qs if q.kind == 'main'), 'discharged': discharged + sum(1 for q in qs if q.kind == 'main' and q.result['status'] == 'confirmed'),
            'states': max(1, states), 'transitions': max(1, trans), 'traces_validated_against_impl': validated,
            'scenarios': len(scns), 'bmc_unsat': unsat, 'bmc_sat': sat, 'bmc_unknown_timeout': unknown, 'inductive_proved': proved,
            'bmc_solver_s': round(solver_s, 2), 'bmc_queries': queries}
